@@ -271,8 +271,13 @@ fn run(repo: &str, template: &str, shimdir: &str, logv: &mut Value) -> Result<St
                 }
             }
             "body" | "sigonly" => {
-                let s = cur.take().ok_or_else(|| Undecided(format!("template line {}: body outside slot", tline)))?;
+                let mut s = cur.take().ok_or_else(|| Undecided(format!("template line {}: body outside slot", tline)))?;
                 in_sig = false;
+                // adapted mode: the driver may ask to drop the ghost hints of a slot whose body changed shape
+                let nohint = std::env::var("VX_NOHINT").unwrap_or_default();
+                if nohint.split(';').any(|x| x.trim() == s.name) {
+                    s.hints.clear();
+                }
                 if idx.is_none() {
                     idx = Some(index::Index::build(repo, &roots)?);
                 }
@@ -299,6 +304,55 @@ fn run(repo: &str, template: &str, shimdir: &str, logv: &mut Value) -> Result<St
                     "n_loops": s.loops.len(), "n_hints": s.hints.len(), "n_closures": s.closures.len(),
                     "n_substs": s.substs.len(),
                 }));
+            }
+            "autoslots" => {
+                // helpers the real code calls that have no slot: named by the driver after a first
+                // verification attempt (VX_AUTO="Type::name;name2"), extracted with their real
+                // signature and NO contract (adapted mode, see DESIGN 4.2)
+                let auto = std::env::var("VX_AUTO").unwrap_or_default();
+                if idx.is_none() {
+                    idx = Some(index::Index::build(repo, &roots)?);
+                }
+                let ix = idx.as_ref().unwrap();
+                for item in auto.split(';').map(|x| x.trim()).filter(|x| !x.is_empty()) {
+                    let (ty, name) = match item.rsplit_once("::") {
+                        Some((t, n)) => (Some(t.to_string()), n.to_string()),
+                        None => (None, item.to_string()),
+                    };
+                    let locator = match &ty {
+                        Some(t) => format!("impl {} fn {}", t, name),
+                        None => format!("fn {}", name),
+                    };
+                    let found = match ix.locate(&locator) {
+                        Ok(f) => f,
+                        Err(Undecided(e)) => bail!("auto slot '{}': {}", item, e),
+                    };
+                    let spec = SlotSpec { name: format!("auto::{}", item), locator: locator.clone(), props: unit_props.clone(), tline, ..Default::default() };
+                    let (body, rewrites) = rewrite::rewrite_body(&spec, &found, &retarget, ix)
+                        .map_err(|Undecided(e)| Undecided(format!("auto slot '{}' ({}): {}", item, found.origin, e)))?;
+                    let sig_start = count_lines(&out) + 1;
+                    if let Some(t) = &ty {
+                        out.push_str(&format!("impl {} {{\n", t));
+                    }
+                    out.push_str("#[verifier::exec_allows_no_decreases_clause]\n");
+                    out.push_str(&found.sig_src);
+                    out.push('\n');
+                    let body_out_start = count_lines(&out) + 1;
+                    out.push_str(&body);
+                    out.push('\n');
+                    let body_end = count_lines(&out);
+                    if ty.is_some() {
+                        out.push_str("}\n");
+                    }
+                    logv["slots"].as_array_mut().unwrap().push(json!({
+                        "name": spec.name, "locator": locator, "props": spec.props, "auto": true,
+                        "template_line": tline, "file": found.file, "origin": found.origin,
+                        "src_line_start": found.item_line_start, "src_line_end": found.item_line_end,
+                        "src_body_line": found.body_line_start, "item_text": found.item_text,
+                        "out_sig_line": sig_start, "out_body_line_start": body_out_start, "out_body_line_end": body_end,
+                        "rewrites": rewrites, "n_loops": 0, "n_hints": 0, "n_closures": 0, "n_substs": 0,
+                    }));
+                }
             }
             other => bail!("template line {}: unknown directive '{}'", tline, other),
         }
